@@ -152,8 +152,10 @@ fn process_z80r_block<H: Host>(emulator: &mut Emulator<H>, block_data: &[u8]) {
     emulator.cpu.skip_interrupt = flags & ZXSTZF_EILAST != 0;
     emulator.cpu.halted = flags & ZXSTZF_HALTED != 0;
 
+    // Halted CPU of the snapshot has already fetched its HALT (PC points behind it, otherwise
+    // the flag would not be needed), while halted CPU of the emulator stays on the HALT opcode
     if emulator.cpu.halted {
-        emulator.cpu.regs.inc_pc();
+        emulator.cpu.regs.dec_pc();
     }
 
     // v1.5
